@@ -32,9 +32,10 @@ const (
 	c37Count
 	c37Reset
 	c37Delete
+	c37Reopen // a second NewSlidingBloomFilter on the same name and parameters (another process starting); later steps use the new object
 )
 
-var c37kindNames = []string{"Add", "AddMulti", "Exists", "ExistsMulti", "Count", "Reset", "Delete"}
+var c37kindNames = []string{"Add", "AddMulti", "Exists", "ExistsMulti", "Count", "Reset", "Delete", "Reopen"}
 
 type c37op struct {
 	Kind int
@@ -56,6 +57,7 @@ var c37alphabet = []c37op{
 	{c37Count, nil},
 	{c37Reset, nil},
 	{c37Delete, nil},
+	{c37Reopen, nil},
 }
 
 const c37nAdvances = 5
@@ -226,6 +228,11 @@ func c37run(r *vrun.Run, w *c37world, cfg c37cfg, steps []c37step, outcomes bool
 				opErr = bf.Reset(ctx)
 			case c37Delete:
 				opErr = bf.Delete(ctx)
+			case c37Reopen:
+				var nbf BloomFilter
+				if nbf, opErr = c37new(w.cl, cfg); opErr == nil {
+					bf = nbf
+				}
 			}
 		})
 		if p != nil {
@@ -295,7 +302,7 @@ func TestVerif_C37(t *testing.T) {
 		defer debug.SetGCPercent(debug.SetGCPercent(4000))
 		defer debug.SetMemoryLimit(debug.SetMemoryLimit(4 << 30))
 		r.Rule = "for every (n,p) of the grid accepted by NewSlidingBloomFilter x {(window 1s, default exists script), (window 10s, read-only exists script)}: " +
-			"every timed history of 1..depth steps, a step being (server clock advance from {0, w/2-1ms, w/2, w/2+1ms, w}, operation from the 7-operation alphabet), " +
+			"every timed history of 1..depth steps, a step being (server clock advance from {0, w/2-1ms, w/2, w/2+1ms, w}, operation from the 8-operation alphabet: Add, AddMulti, Exists, ExistsMulti, Count, Reset, Delete, Reopen = constructing the filter again on the same name), " +
 			"followed by an epilogue ExistsMulti([c,a,b]) at the time of the last step. depth per configuration is listed in bounds: the representative " +
 			"configurations get max_history_length, every other distinct (size,k) class one or two levels less. State = (configuration, timed history). " +
 			"Both representatives additionally run 360 curated five-step histories (add; an operation at w/2, w/2+1 or w that may rotate; add again; query after the next rotation; query again). " +
